@@ -29,7 +29,8 @@ PROPS = {
                  " The packet handlers (handleMsg, handleDiscover, handleRequest, sendMsg, sendNACK, getDuid) as translated from the source on every run, executed over the model's database steps and handler oracle, end in exactly the database and frame of the model's handle (C04Code).",
         "props": ["C01", "C02Code", "C11Code", "C11CodeClients", "C04Code"],
         "streams": [{"test": "TestSrvSeq", "names": ["srvseq"], "timeout": 300}, {"test": "TestSrvConc", "names": ["srvconc"], "timeout": 300},
-                    {"test": "TestDbConc", "names": ["dbconc"], "timeout": 300}],
+                    {"test": "TestDbConc", "names": ["dbconc"], "timeout": 300},
+                    {"test": "TestIpdb", "names": ["ipdb"], "timeout": 300}],
         "rule": "corpus (D1-D3 histories) first; random configurations (prefix /24../30, pools of 1-8 addresses at start/middle/end, 0-2 static entries, "
                 "static_only 10%), 1-8 hosts with none / derived / custom / short / forged client identifiers, 5-45 messages of 19 kinds (DISCOVER, four "
                 "REQUEST shapes, wrong server, misaddressed, own MAC, own address, unknown type, forged ids, short hardware addresses, junk frames) "
@@ -47,8 +48,9 @@ PROPS = {
                  "fromTo_excludes), is not the server's own, and is in the enabled dynamic range unless it is the static address of that hardware "
                  "address; static_only blocks everything else (handed_out_allowed, static_only_blocks_dynamic, ranges_fixed) — Lean theorems over all "
                  "interleavings; correspondence and yiaddr-vs-configuration monitor as for C01."
-                 " fromTo/toUip/InManagedRange and duidFromHwAddr as translated from the source on every run equal the models (C02Code, C11Code).",
-        "props": ["C02", "C11Code", "C02Code"],
+                 " fromTo/toUip/InManagedRange and duidFromHwAddr as translated from the source on every run equal the models (C02Code, C11Code)."
+                 " The constructor that sets the managed range, the dynamic range and static_only is on the regenerated code too (C18Code).",
+        "props": ["C02", "C11Code", "C02Code", "C18Code"],
         "streams": [{"test": "TestSrvSeq", "names": ["srvseq"], "timeout": 300}, {"test": "TestCfgNew", "names": ["cfgnew"], "timeout": 300}],
         "rule": "as C01 (configurations enumerate range positions, statics inside/outside the range, static_only; suggestions drawn from {in range, "
                 "below/above range, network/broadcast address, server address, other network, 0.0.0.0, a static, the host's last offer}) plus the "
@@ -125,7 +127,7 @@ PROPS = {
                  "the advertised whole seconds are within one second of what the ACK's update reserves (advertised_is_reserved) — Lean theorems; "
                  "correspondence over every subset of global x per-client settings x list lengths, checked by the monitor's own reading of the config."
                  " server.dhcpOptions and OptionIPAddressLeaseDuration as translated from the source on every run equal SrvCfg.dhcpOptions / optLease, and the override table's keys (Duid.String) are injective (C07Code).",
-        "props": ["C07", "C12Code", "C07Code"],
+        "props": ["C07", "C12Code", "C07Code", "C18Code"],
         "streams": [{"test": "TestCfgOptions", "names": ["cfgopts"], "timeout": 300}, {"test": "TestCfgNew", "names": ["cfgnew"], "timeout": 300},
                     {"test": "TestSrvSeq", "names": ["srvseq"], "timeout": 300}, {"test": "TestSrvConc", "names": ["srvconc"], "timeout": 300}],
         "rule": "the server scripts of C01 (advertised lease time = time the address stays reserved: nobody else is given the address, and the holder is not refused, "
@@ -288,8 +290,9 @@ PROPS = {
                  "range and statics inside the network, distinct addresses and hardware addresses, own address inside and unreserved), independent of "
                  "map iteration order (order_independent), with every global and per-client value in effect (effective_global, effective_client) and "
                  "identically for the concrete store (start_refines) — Lean theorems over all raw configurations; correspondence: the real server.New on "
-                 "valid configurations and on 29 kinds of injected faults (alone and in pairs), the started servers then answering a DISCOVER per client.",
-        "props": ["C18"],
+                 "valid configurations and on 29 kinds of injected faults (alone and in pairs), the started servers then answering a DISCOVER per client."
+                 " server.New and leaseopts.ParseConfig/SetClientOverrides/representable/ipv4 as translated from the source on every run (standard-library parsers uninterpreted) start exactly when the model's newServer does, never panic, and on success have built the model's lease database and a server value carrying the model's handler configuration (C18Code.code_new).",
+        "props": ["C18", "C18Code"],
         "streams": [{"test": "TestCfgNew", "names": ["cfgnew"], "timeout": 300}, {"test": "TestCfgOptions", "names": ["cfgopts"], "timeout": 300}],
         "rule": "random valid configurations (prefix, range position, 0-2 client entries, three MAC spellings, 63 DNS servers / 255-byte domain boundary) with "
                 "0, 1 or 2 faults from {network, lease, lease<1 min, router, dns, ntp, empty string inside a list, >63 dns/ntp, >255-byte domain, lease > "
